@@ -154,8 +154,12 @@ class Ctx:
                     self._cache[skey] = (st2, info2.get("backend", "z3"))
                     if st2 == "valid":
                         return self._record(name, "discharged", info2["backend"] + "(sliced)", time.time() - t0, shape=shape)
-        gs = self._group(pcn)
-        status, model, info = gs.check_valid(g, self.timeout, smt2_out=smt2 if len(self.samples) < 2 else None)
+        if _has_real([g] + pcn):
+            # nonlinear real arithmetic: a fresh (non-incremental) solver, so that z3 can use nlsat
+            status, model, info = smt.check_valid(pcn, g, self.timeout, smt2_out=smt2 if len(self.samples) < 2 else None)
+        else:
+            gs = self._group(pcn)
+            status, model, info = gs.check_valid(g, self.timeout, smt2_out=smt2 if len(self.samples) < 2 else None)
         self._cache[ckey] = (status, info.get("backend", "z3"))
         if status == "valid":
             return self._record(name, "discharged", info["backend"], time.time() - t0, shape=shape, smt2=smt2[0] if smt2 else None)
@@ -295,6 +299,18 @@ class Ctx:
 
 
 _SYMS = {}
+_HASREAL = {}
+
+
+def _has_real(nodes):
+    for n in nodes:
+        r = _HASREAL.get(n.id)
+        if r is None:
+            r = any(x.op == "var" and x.sort == E.R for x in E.postorder([n]))
+            _HASREAL[n.id] = r
+        if r:
+            return True
+    return False
 
 
 def symbols_of(n):
